@@ -599,6 +599,16 @@ func ocPad(doc string) string {
 	return doc
 }
 
+// The stream decoder hands the codec exactly the bytes of one value: a bare number at the top level then ends at
+// the end of the codec's input whatever follows it in the stream (see ocPad) - it is put into an array instead.
+func ocSdecTop(doc string) string {
+	t := strings.TrimLeft(doc, " \t\r\n")
+	if len(t) > 0 && (t[0] == '-' || (t[0] >= '0' && t[0] <= '9')) {
+		return "[" + doc + "]"
+	}
+	return doc
+}
+
 func ocEmitPair(g *Gen, sw int, cfg uint64, side string) {
 	name := ocFieldNames[sw]
 	if side == "m" {
@@ -702,7 +712,7 @@ func init() {
 				case "mapany":
 					d = ocDocObj(g, c, 2)
 				default:
-					d = ocDocVal(g, c, 3)
+					d = ocSdecTop(ocDocVal(g, c, 3))
 				}
 				doc = hexArg([]byte(ocPad(d)))
 			default:
@@ -750,7 +760,7 @@ func init() {
 				case "mapany":
 					d = ocDocObj(g, c, 2)
 				default:
-					d = ocDocVal(g, c, 3)
+					d = ocSdecTop(ocDocVal(g, c, 3))
 				}
 				doc = hexArg([]byte(ocPad(d)))
 			} else {
